@@ -206,7 +206,7 @@ func preserved(in *oracleIn, tb, ta *TableDump, specName string, useGen bool) (v
 func (in *oracleIn) check() (vs []Verdict, stats map[string]int) {
 	stats = map[string]int{}
 	refused := in.applyErr != nil
-	if refused && in.mode.Tx != "none" {
+	if refused && in.mode.Tx != "none" && in.mode.Tx != "prefix" {
 		if d := equalDump(in.before, in.after); d != "" {
 			vs = append(vs, Verdict{"refused-not-unchanged", fmt.Sprintf("mode=%s %s", in.mode, d)})
 		}
@@ -225,7 +225,14 @@ func (in *oracleIn) check() (vs []Verdict, stats map[string]int) {
 		}
 		if ta == nil && refused {
 			// the plan may have stopped between DROP TABLE t and RENAME new_t TO t
-			ta = in.after.Tables["new_"+n]
+			// (whatever the temporary table is called: a table that did not exist before, is not
+			// wanted by the desired schema, and has the row count of the missing one)
+			for _, cand := range in.after.Names {
+				if in.before.Tables[cand] == nil && in.des.table(cand) == nil &&
+					(ta == nil || len(in.after.Tables[cand].Rows) == len(tb.Rows)) {
+					ta = in.after.Tables[cand]
+				}
+			}
 			if ta != nil {
 				stats["partial-state-rows-under-temp-name"]++
 			}
